@@ -117,5 +117,21 @@ theorem top_up_is_worth_what_was_minted (snap : SVal) (ds : Dec) (amt : Int) (hT
 example : let i := (10 * 5 : Int) / 10
     (3 + i) * (10 + 5) * 10 ≤ (3 * 10 + 5 * 10) * (10 + i) ∧ (3 * 10 + 5 * 10) * (10 + i) < (3 + i) * (10 + 5) * 10 + 10 * 10 := by decide
 
+
+/-- the arithmetic of a rebalance-DOWN in x/staking's share model: the module holds `ds` of a validator's `D` shares backed
+    by `T` tokens and unbonds `sh` of them for x = ⌊sh·T/D⌋ tokens, which are burned. As exact rationals its stake value moves
+    from ds·T/D to (ds−sh)·(T−x)/(D−sh) ∈ (ds·T/D − x − D/(D−sh), ds·T/D − x]: what is burned is what the stake lost, up to
+    the truncation of x — cross-multiplied by D·(D−sh) -/
+theorem rebalance_down_is_worth_what_was_burned (ds sh T D : Int) (hD : 0 < D) (hds0 : 0 ≤ ds) (hds : ds ≤ D)
+    (hsh0 : 0 ≤ sh) (hT : 0 ≤ T) :
+    let x := (T * sh) / D
+    (ds - sh) * (T - x) * D ≤ (ds * T - x * D) * (D - sh) ∧
+    (ds * T - x * D) * (D - sh) < (ds - sh) * (T - x) * D + D * D :=
+  stake_value_after_unbond ds sh T D hD hds0 hds hsh0 hT
+
+/-- non-vacuity: 8 of 10 shares backed by 15 tokens, 3 shares unbonded for ⌊4.5⌋ = 4 tokens: value 12 → 5·11/7 ≈ 7.86 ∈ (6.57, 8] -/
+example : let x := (15 * 3 : Int) / 10
+    (8 - 3) * (15 - x) * 10 ≤ (8 * 15 - x * 10) * (10 - 3) ∧ (8 * 15 - x * 10) * (10 - 3) < (8 - 3) * (15 - x) * 10 + 10 * 10 := by decide
+
 end C10
 end Alliance
